@@ -19,6 +19,10 @@ pub const ALT_DEFAULT: &[&str] = &[
     "-1e21", "-1.0e21", "-7.0e22", "-5e-7", "-1E3", "-2e16", "+1e21", "-0.0000003", "-0e0", "-1e0",
     // unquote followed by trivia and an @-initial symbol is NOT unquote-splicing
     ", @a", "(, @rest)", ",\n@a", ",;c\n@a", ",@ a", "(a , @b c)",
+    // the long forms of the shorthands, in every arity, with @-initial arguments
+    "(unquote @rest)", "(unquote @)", "(quasiquote (list (unquote x) (unquote @) (unquote-splicing y)))", "(a (unquote @b) #((unquote @)))", "(quote)", "(quote a b)", "(quote . a)", "(unquote . @a)", "(x unquote @a)", "(x . (unquote @a))", "(unquote-splicing a)", "(function f)",
+    // raw control characters (NUL, BEL, ESC, DEL, C1) inside strings and symbols
+    "\"a\x00b\"", "(#:key \"\x00\")", "#(\"\x00\x001\" x)", "\"\x01\x07\x1b\x7f\"", "\"\u{80}\u{9f}\"", "a\x01b", "(\x7f)",
     "0", "-0", "+5", "-5", "007", "#b101", "#b-101", "#o17", "#o+17", "#d10", "#d-10", "#xff", "#xFF", "#x-fF", "#x+0a", "#b0", "1.5", "-1.5", "+1.5",
     "1e3", "1E3", "1e+3", "1e-3", "1.5e3", "1.5E-3", "0.5", "10.25", "#d1.5", "#d1e3", "123456789012345678901234567890", "-123456789012345678901234567890",
     "18446744073709551615", "18446744073709551616", "-9223372036854775808", "-9223372036854775809", "1.0e21", "1e21", "5e-324", "1e-7", "100.0", "#xFFFFFFFFFFFFFFFFFFFF",
